@@ -40,6 +40,8 @@ FIXED = {'meson-private': 'P', 'meson-info': 'J', 'meson-private/coredata.dat': 
          'meson-private/coredata.dat.prev': 'p', 'meson-private/coredata.dat~': 't',
          'meson-private/build.dat': 'b', 'meson-private/cmd_line.txt': 'm', 'meson-private/cmd_line.txt~': 'n',
          'build.ninja': 'N', 'build.ninja~': 'M', 'meson-info/tmp_dump.json': 'T'}
+STYLES = {'plain': 'd%07d', 'bracket': 'd[%05d]', 'space': 'd %06d', 'utf8': 'd\u00e9%05d'}
+NATIVE_FILE_TEXT = "[properties]\nverif_marker = 'from a pipe'\n"
 KINDCH = {'mkdir': 'K', 'fsync': 'F', 'unlink': 'U', 'rmdir': 'X', 'write': 'W'}
 
 
@@ -56,12 +58,15 @@ def ev_wire(ev):
     kind, D, order, kill = ev
     if kind == 'X':
         return '\x01'.join(['X', D, order, ''])
-    return '\x01'.join([kind, d_wire(D), ','.join(order or []), '' if kill is None else str(kill)])
+    # 'N' = first setup with a machine file read from a pipe: the model knows no machine files, to it this is a setup
+    return '\x01'.join(['S' if kind == 'N' else kind, d_wire(D), ','.join(order or []), '' if kill is None else str(kill)])
 
 
 def cmd_args(kind, D, bdir, src):
     if kind == 'S':
         return ['setup', bdir, src] + d_args(D)
+    if kind == 'N':
+        return ['setup', bdir, src, '--native-file', '/dev/stdin'] + d_args(D)
     if kind == 'R':
         return ['setup', '--reconfigure', bdir, src] + d_args(D)
     if kind == 'W':
@@ -97,9 +102,11 @@ class Lab:
         os.makedirs(d, exist_ok=True)
         return d
 
-    def newdir(self, area):
+    def newdir(self, area, style='plain'):
+        """a fresh 8-BYTE directory name (relocate() needs equal byte lengths).  Hostile styles: a glob
+        character class, a blank, a non-ASCII letter - all legal directory names."""
         self.nd += 1
-        return os.path.join(area, 'd%07d' % self.nd)
+        return os.path.join(area, STYLES[style] % self.nd)
 
     # ---- path classes
     def code(self, rel):
@@ -155,10 +162,10 @@ class Lab:
                 toks.append([t, i, i])
         return toks
 
-    def record(self, base, kind, D, area):
+    def record(self, base, kind, D, area, style='plain'):
         """Two recording runs of the command on copies of base: the first finds the paths the command
         touches, the second (with -P for exactly those paths) yields the kill points and the counters."""
-        a = self.newdir(area)
+        a = self.newdir(area, style)
         self._copy(base, a)
         r = T.run_traced(a + '.log', cmd_args(kind, D, a, self.src), self.pyc)
         self.strace_runs += 1
@@ -171,7 +178,7 @@ class Lab:
                     rel.add(os.path.relpath(os.path.dirname(p), a) if p != a else '.')
         rel = sorted(rel)
         toks1 = [t[0] for t in self.tokens(evs, a)]
-        b = self.newdir(area)
+        b = self.newdir(area, style)
         self._copy(base, b)
         r2 = T.run_traced(b + '.log', cmd_args(kind, D, b, self.src), self.pyc, pfiles=self.pfiles(b, rel))
         self.strace_runs += 1
@@ -190,7 +197,7 @@ class Lab:
                            'what': '%s#%d:%s' % (e['sys'], m, tgt), 'target': tgt})
         order = [t[0][1:] for t in toks if t[0][0] in 'UX']
         return {'rc': r2.returncode, 'rc1': r.returncode, 'out': (r2.stdout + r2.stderr)[-1500:], 'tokens': [t[0] for t in toks],
-                'tokens1': toks1,
+                'tokens1': toks1, 'out1': (r.stdout + r.stderr)[-1500:],
                 'points': points, 'rel': rel, 'order': order, 'full_dir': b, 'evs': len(evs2)}
 
     def pfiles(self, d, rel):
@@ -201,9 +208,9 @@ class Lab:
             return          # fresh: the directory does not exist yet
         T.relocate(base, dst)
 
-    def kill(self, base, kind, D, rec, pt, area):
+    def kill(self, base, kind, D, rec, pt, area, style='plain'):
         """Run the command on a fresh copy of base, killed on entry to point pt."""
-        d = self.newdir(area)
+        d = self.newdir(area, style)
         self._copy(base, d)
         r = T.run_traced(d + '.log', cmd_args(kind, D, d, self.src), self.pyc, pfiles=self.pfiles(d, rec['rel']),
                          inject=(pt['sys'], pt['m']))
@@ -278,9 +285,11 @@ def scenarios(thorough, rng):
     conf = [('S', [(0, 1)], None, None)]
     conf2 = [('S', [(0, 1)], None, None), ('C', [(1, 1), (3, 1)], None, None)]
     S.append(('fresh/setup', [], ('S', [(0, 1), (1, 1)])))
-    S.append(('configured/reconfigure', conf, ('R', [(0, 2)])))
-    S.append(('configured/configure', conf, ('C', [(0, 2), (1, 2)])))
-    S.append(('configured+configure/wipe', conf2, ('W', [])))
+    S.append(('configured/reconfigure', conf, ('R', [(0, 2)]), 'space'))
+    S.append(('configured/configure', conf, ('C', [(0, 2), (1, 2)]), 'utf8'))
+    S.append(('configured+configure/wipe', conf2, ('W', []), 'bracket'))
+    # a machine file that was read from a pipe lives in meson-private/*.ini and must survive --wipe, whatever the directory is called
+    S.append(('machine-file-from-pipe/wipe', [('N', [(0, 1)], None, None)], ('W', []), 'bracket'))
     S.append(('configured/wipe-D', conf, ('W', [(1, 1), (0, 2)])))
     # an earlier kill left coredata.dat (s=hello) and cmd_line.txt (s=new) disagreeing; --wipe -Ds=v3 on that (known finding)
     S.append(('killed-configure(cmd_line updated)/wipe-D', conf + [('C', [(0, 2)], None, 3)], ('W', [(0, 3)])))
@@ -289,9 +298,14 @@ def scenarios(thorough, rng):
         S.append(('configured/setup-D (already configured: acts as configure)', conf, ('S', [(2, 1)])))
         S.append(('configured+configure/reconfigure', conf2, ('R', [(3, 2), (4, 2)])))
         S.append(('configured+configure/configure', conf2, ('C', [(3, 2), (0, 0)])))
-        S.append(('configured+configure/wipe-D', conf2, ('W', [(2, 2)])))
-        S.append(('subproject-override/reconfigure', [('S', [(3, 1), (4, 3)], None, None)], ('R', [(3, 2)])))
-        S.append(('long-value/configure', [('S', [(0, 4)], None, None)], ('C', [(1, 1)])))
+        S.append(('configured+configure/wipe-D', conf2, ('W', [(2, 2)]), 'space'))
+        S.append(('configured+configure/wipe', conf2, ('W', []), 'utf8'))
+        S.append(('configured+configure/wipe', conf2, ('W', [])))
+        S.append(('machine-file-from-pipe/wipe', [('N', [(0, 1)], None, None)], ('W', [])))
+        S.append(('machine-file-from-pipe/reconfigure', [('N', [(0, 1)], None, None)], ('R', [(0, 2)]), 'bracket'))
+        S.append(('fresh/setup', [], ('S', [(0, 1), (1, 1)]), 'bracket'))
+        S.append(('subproject-override/reconfigure', [('S', [(3, 1), (4, 3)], None, None)], ('R', [(3, 2)]), 'utf8'))
+        S.append(('long-value/configure', [('S', [(0, 4)], None, None)], ('C', [(1, 1)]), 'bracket'))
         S.append(('long-value/reconfigure', [('S', [(0, 4)], None, None)], ('R', [(0, 1)])))
         # directories left behind by an earlier kill
         S.append(('killed-first-setup(after coredata)/reconfigure', [('S', [(0, 1)], None, 6)], ('R', [(1, 1)])))
@@ -321,7 +335,7 @@ def random_scenario(rng, n):
     kind = rng.choice('RCCWW')
     D = random_D(rng, allow_empty=(kind != 'C'))
     name = 'random%d/%s' % (n, ' ; '.join(cmd_text(e[0], e[1]) for e in hist) + ' => ' + cmd_text(kind, D))
-    return (name, hist, (kind, D))
+    return (name, hist, (kind, D), rng.choice(['plain', 'bracket', 'space', 'utf8']))
 
 
 DAMAGE = [
@@ -344,19 +358,19 @@ class Runner:
         self.bases = {}          # history key -> (dir, wire events)
         self.hn = 0
 
-    def build_history(self, hist):
+    def build_history(self, hist, style='plain'):
         """Apply the events to a fresh directory.  -> (base dir or None, [wire events]) ; cached on prefixes."""
-        key = json.dumps(hist)
+        key = style + json.dumps(hist)
         if key in self.bases:
             return self.bases[key]
         lab = self.lab
         if not hist:
             self.bases[key] = (None, [])
             return self.bases[key]
-        pdir, pw = self.build_history(hist[:-1])
+        pdir, pw = self.build_history(hist[:-1], style)
         self.hn += 1
         area = lab.area('h%05d' % self.hn)
-        d = lab.newdir(area)
+        d = lab.newdir(area, style)
         if pdir is not None:
             T.relocate(pdir, d)
         kind, D, _, kill = hist[-1]
@@ -370,14 +384,14 @@ class Runner:
         elif kill is None:
             order = None
             if kind == 'W':
-                rec = lab.record(pdir, kind, D, area)
+                rec = lab.record(pdir, kind, D, area, style)
                 order = rec['order']
-            r = T.meson(cmd_args(kind, D, d, lab.src), lab.pyc)
+            r = T.meson(cmd_args(kind, D, d, lab.src), lab.pyc, stdin_text=NATIVE_FILE_TEXT if kind == 'N' else None)
             if r.returncode != 0:
                 raise HarnessError('history command failed: %s\n%s' % (cmd_text(kind, D), (r.stdout + r.stderr)[-800:]))
             w = pw + [ev_wire((kind, D, order, None))]
         else:
-            rec = lab.record(pdir, kind, D, area)
+            rec = lab.record(pdir, kind, D, area, style)
             if kill == 'core-gone':
                 # the first kill point after coredata.dat has been unlinked
                 kill = rec['tokens'].index('Uc') + 1
@@ -386,7 +400,7 @@ class Runner:
                 raise HarnessError('no kill point with model index %s in %s' % (kill, cmd_text(kind, D)))
             if pdir is not None:
                 shutil.rmtree(d)
-            d2 = lab.kill(pdir, kind, D, rec, pts[0], area)
+            d2 = lab.kill(pdir, kind, D, rec, pts[0], area, style)
             if not d2['hit']:
                 raise HarnessError('kill point missed while building a history')
             d = d2['dir']
@@ -430,16 +444,23 @@ def do_replay(ctx):
     run = Runner(ctx, lab)
     hist = [tuple(e) for e in r['history']]
     hist = [(e[0], [tuple(x) for x in e[1]] if e[0] != 'X' else e[1], e[2], e[3]) for e in hist]
-    base, hw = run.build_history(hist)
+    base, hw = run.build_history(hist, r.get('style', 'plain'))
     kind, D = r['command'][0], [tuple(x) for x in r['command'][1]]
     area = lab.area('replay')
-    rc = lab.record(base, kind, D, area)
+    style = r.get('style', 'plain')
+    rc = lab.record(base, kind, D, area, style)
+    if r.get('j') == -1:
+        print('command        :', cmd_text(kind, D), ' (NOT killed) in a directory named like %r -> exit %s' % (STYLES[style] % 1, rc['rc1']))
+        for l in [l for l in rc['out1'].strip().split('\n') if l.strip()][-4:]:
+            print('                 ', l[:300])
+        ctx.cleanup()
+        return 0
     pts = [p for p in rc['points'] if p['what'] == r.get('what')] or [p for p in rc['points'] if p['j'] == r.get('j')]
     if not pts:
         print('kill point not found in this tree; points are:', [p['what'] for p in rc['points']][:80])
         ctx.cleanup()
         return 1
-    kd = lab.kill(base, kind, D, rc, pts[0], area)
+    kd = lab.kill(base, kind, D, rc, pts[0], area, style)
     print('command        :', cmd_text(kind, D), ' killed on entry to', pts[0]['what'], '(hit=%s)' % kd['hit'])
     refs = sorted({r['ninja'] for r in lab.classify([x for x in (base, rc['full_dir']) if x], []) if r.get('ninja')})
     pre = lab.classify([kd['dir']], refs)[0]
@@ -483,15 +504,18 @@ def run(ctx):
 
     scs = scenarios(thorough, rng)
     jobs = []          # one per scenario
-    for sid, hist, (kind, D) in scs:
-        base, hw = runner.build_history(hist)
-        jobs.append({'id': sid, 'hist': hist, 'hw': hw, 'base': base, 'kind': kind, 'D': D})
+    for sc in scs:
+        sid, hist, (kind, D) = sc[:3]
+        style = sc[3] if len(sc) > 3 else 'plain'
+        base, hw = runner.build_history(hist, style)
+        jobs.append({'id': sid + ('' if style == 'plain' else ' [%s directory name]' % style), 'hist': hist, 'hw': hw, 'base': base,
+                     'kind': kind, 'D': D, 'style': style})
     ctx.extra['history_build_s'] = round(time.time() - t0, 1)
 
     # --- recordings (parallel)
     def rec_job(jb):
         jb['area'] = lab.area('s' + hashlib.sha1(jb['id'].encode()).hexdigest()[:5])
-        jb['rec'] = lab.record(jb['base'], jb['kind'], jb['D'], jb['area'])
+        jb['rec'] = lab.record(jb['base'], jb['kind'], jb['D'], jb['area'], jb['style'])
         return jb
     pmap(rec_job, jobs)
     env_w = lab.env_wire()
@@ -505,6 +529,8 @@ def run(ctx):
         pts = select_points(rec['points'], thorough)
         if not thorough:
             pts = thin_info(pts)
+            if jb['id'].startswith('machine-file'):
+                pts = [p for n, p in enumerate(pts) if p['j'] == 0 or n % 5 == 0]
             if jb['id'].startswith('random'):
                 pts = [p for n, p in enumerate(pts) if p['j'] == 0 or n % 3 == 0]
             if jb['id'].startswith('killed-configure(cmd_line updated)/wipe-D') and 'Uc' in rec['tokens']:
@@ -522,7 +548,7 @@ def run(ctx):
     # --- kill runs (parallel), crashed-state classification, follow-ups, post classification
     def kill_job(x):
         jb, p = x
-        return lab.kill(jb['base'], jb['kind'], jb['D'], jb['rec'], p, jb['area'])
+        return lab.kill(jb['base'], jb['kind'], jb['D'], jb['rec'], p, jb['area'], jb['style'])
     t1 = time.time()
     kres = pmap(kill_job, kills)
     # complete runs as the "new" reference: follow-up on the recording's directory
@@ -619,8 +645,15 @@ def run(ctx):
     for jb, fl in zip(jobs, fails):
         hist_txt = '; '.join((cmd_text(e[0], e[1]) + (' (killed at mutation %s)' % e[3] if e[3] is not None else '')) if e[0] != 'X'
                              else 'damage ' + e[1] for e in jb['hist']) or 'empty directory'
-        replay_base = {'history': jb['hist'], 'command': [jb['kind'], jb['D']]}
-        if jb['new'] is None:
+        replay_base = {'history': jb['hist'], 'command': [jb['kind'], jb['D']], 'style': jb['style'],
+                       'build_directory_name_like': STYLES[jb['style']] % 1}
+        if jb['rec']['rc1'] != 0:
+            ctx.violation('C09:command-fails:' + jb['id'],
+                          '`meson %s` on [%s] in a build directory named like %r FAILS although it is not killed (exit %s): %s'
+                          % (cmd_text(jb['kind'], jb['D']), hist_txt, STYLES[jb['style']] % 1, jb['rec']['rc1'],
+                             ' / '.join(l for l in jb['rec']['out1'].strip().split('\n') if l.strip())[-400:]),
+                          dict(replay_base, j=-1))
+        elif jb['new'] is None:
             ctx.violation('C09:command-fails:' + jb['id'], 'the follow-up after the COMPLETE command `%s` fails (%s)' % (cmd_text(jb['kind'], jb['D']), jb['new_cls']),
                           dict(replay_base, j=-1))
         groups = {}
